@@ -584,6 +584,12 @@ class Executor:
                 return b_not(n_eq(zbool(x) if not isinstance(x, bool) else x, zbool(y) if not isinstance(y, bool) else y))
             if is_conc(x) and is_conc(y):
                 return {'BitAnd': x & y, 'BitOr': x | y, 'BitXor': x ^ y}[op]
+            if ta in INT_RANGES:
+                lo, hi = INT_RANGES[ta]
+                w = (hi - lo + 1).bit_length() - 1
+                bx, by = z3.Int2BV(zint(x), w), z3.Int2BV(zint(y), w)
+                r = {'BitAnd': bx & by, 'BitOr': bx | by, 'BitXor': bx ^ by}[op]
+                return z3.BV2Int(r, lo < 0)
             raise Unmodelled('%s on symbolic ints' % op)
         if op in ('Shl', 'Shr', 'ShlUnchecked', 'ShrUnchecked'):
             if is_conc(y):
